@@ -163,3 +163,89 @@ Theorem coupled_run_nonvacuous_thm :
     map cmd_of (lp_comm c) = [(EntryNormal, [43])] /\ queue unit l = [] /\ length evs = 4%nat.
 Proof. exact coupled_run_nonvacuous. Qed.
 Print Assumptions coupled_run_nonvacuous_thm.
+
+From BLB Require Import Raft.LeaderSuffixS C03.LeaderLoopSnap C03.LayerCoreS C03.LayerCoreSExample.
+
+(* [FULL] the leader-loop contract for leaderships that contain SnapshotDone events, node level over Raft Core.v: start
+   state as in leader_commits_own_suffix_with_snapshots of C02 - Leader, log contiguous with the snapshot, snapshot
+   index at most the commit index, commit index equal to the last index; events Deliver of any message, Tick, Propose,
+   Bootstrap leaving the node leader of the same term, and SnapshotDone with an applied position, 1 up to the commit
+   index, which commits the snapshot metadata and trims the log. After every event what was committed so far followed
+   by the newly returned entries is a prefix of what was proposed so far *)
+Theorem leader_commits_own_suffix_with_snapshot_done :
+  forall s0 evs st1 ev st2,
+    loop_start_snap s0 -> loop_runS {| lp_node := s0; lp_prop := []; lp_comm := [] |} evs st1 -> loop_stepS st1 ev st2 ->
+    lp_comm st2 = lp_comm st1 ++ n_commits (lp_node st2) /\
+    lp_prop st2 = lp_prop st1 ++ proposed_by (lp_node st1) ev /\
+    Raft.LeaderSuffix.prefix (lp_comm st1 ++ n_commits (lp_node st2)) (lp_prop st2).
+Proof. exact leader_commits_own_suffix_snapdone_stepwise. Qed.
+Print Assumptions leader_commits_own_suffix_with_snapshot_done.
+
+(* [FULL] pairing_correct over the Raft core for leaderships with snapshots - the start state may hold a snapshot and
+   the leadership may contain SnapshotDone events with an applied position, CCoreS of ESnapDone; otherwise the coupled
+   iterations, tail and conclusions of pairing_correct_over_raft_core. Still outside one leadership - AddNode and
+   RemoveNode; a Restart ends the leadership *)
+Theorem pairing_correct_over_raft_core_with_snapshots :
+  forall (St R : Type) (apply : St -> Z -> St * R) s0 its evs s tail,
+  loop_start_snap s0 -> crunS R (loop_termS s0) (cstartS R s0) its evs s -> tail_okS tail ->
+  let st := run R (loop_termS s0) (evs ++ tail) in
+  fatal R st = false /\
+  map fst (tofsm R st) = committed R st /\
+  map snd (tofsm R st) = firstn (length (committed R st)) (enqueued R st) /\
+  (forall k cmd tag c, nth_error (tofsm R st) k = Some (ENormal cmd tag, c) ->
+     c = CPending tag /\
+     (exists r, In r (reqs R st) /\ rp r = tag /\ rcmd r = cmd) /\
+     forall f0, In (tag, Applied R (Some (snd (apply (fsm_state St R apply f0 (firstn k (tofsm R st))) cmd))))
+                   (fsm_run St R apply f0 (tofsm R st))) /\
+  (forall k c, nth_error (tofsm R st) k = Some (ENop, c) -> exists g, c = CGroup g).
+Proof. exact pairing_over_raft_lemmaS. Qed.
+Print Assumptions pairing_correct_over_raft_core_with_snapshots.
+
+(* [FULL] the coupling with snapshots is faithful - same runs - the entries handed to the layer are in type and command
+   and order what the node model returned from TakeNewlyCommitted and got through core.Propose *)
+Theorem coupled_commits_are_core_commits_with_snapshots :
+  forall (R : Type) cur s0 its evs l c,
+  loop_start_snap s0 -> crunS R cur (cstartS R s0) its evs (l, c) ->
+  l = run R cur evs /\ leading R l = true /\
+  map erS (committed R l) = map cmd_of (lp_comm c) /\
+  map erS (proposed R l) = map cmd_of (lp_prop c) /\
+  exists cevs, loop_runS {| lp_node := s0; lp_prop := []; lp_comm := [] |} cevs c.
+Proof. exact coupled_faithfulS. Qed.
+Print Assumptions coupled_commits_are_core_commits_with_snapshots.
+
+(* [FULL] pending_concluded_exactly_once over the Raft core for leaderships with snapshots, same runs *)
+Theorem pending_concluded_exactly_once_over_raft_core_with_snapshots :
+  forall (St R : Type) (apply : St -> Z -> St * R) s0 its evs s tail f0,
+  loop_start_snap s0 -> crunS R (loop_termS s0) (cstartS R s0) its evs s -> tail_okS tail ->
+  let st := run R (loop_termS s0) (evs ++ tail) in
+  NoDup (seen R st) ->
+  NoDup (map fst (concl R st ++ fsm_run St R apply f0 (tofsm R st)) ++
+         flat_map (fun ce => pids (fst ce)) (queue R st)) /\
+  (leading R st = false ->
+   Permutation (map fst (concl R st ++ fsm_run St R apply f0 (tofsm R st))) (seen R st)).
+Proof. exact concluded_once_over_raft_lemmaS. Qed.
+Print Assumptions pending_concluded_exactly_once_over_raft_core_with_snapshots.
+
+(* [FULL] definite_error_never_proposed over the Raft core for leaderships with snapshots, same runs *)
+Theorem definite_error_never_proposed_over_raft_core_with_snapshots :
+  forall (R : Type) s0 its evs s tail,
+  loop_start_snap s0 -> crunS R (loop_termS s0) (cstartS R s0) its evs s -> tail_okS tail ->
+  let st := run R (loop_termS s0) (evs ++ tail) in
+  NoDup (seen R st) ->
+  forall p o, In (p, o) (concl R st) -> (o = ENotLeader R \/ o = ETermMismatch R) ->
+  forall cmd, ~ In (ENormal cmd p) (proposed R st).
+Proof. exact definite_error_over_raft_lemmaS. Qed.
+Print Assumptions definite_error_never_proposed_over_raft_core_with_snapshots.
+
+(* [FULL] non-vacuity with a SnapshotDone inside the leadership: request 1 proposed, committed and paired, then
+   fsmSnapshotDone for position 3 trims the whole log of the leader, then request 2 is proposed on the trimmed log
+   at index 4 and waits in the queue *)
+Theorem coupled_run_with_snapshot_done_nonvacuous_thm :
+  exists evs l c,
+    crunS unit (loop_termS Raft.LeaderSuffixExample.ldr0) (cstartS unit Raft.LeaderSuffixExample.ldr0) exS_its evs (l, c) /\
+    tofsm unit l = [(ENormal 43 1, CPending 1)] /\
+    proposed unit l = [ENormal 43 1; ENormal 44 2] /\ queue unit l = [(CPending 2, ENormal 44 2)] /\
+    p_log (n_p (lp_node c)) = [{| e_term := 2; e_index := 4; e_type := EntryNormal; e_pl := [44%Z] |}] /\
+    p_snap (n_p (lp_node c)) = Some sm3 /\ n_role (lp_node c) = Leader.
+Proof. exact coupled_run_with_snapshot_done_nonvacuous. Qed.
+Print Assumptions coupled_run_with_snapshot_done_nonvacuous_thm.
